@@ -105,8 +105,10 @@ McPairs ==
        [NoPeer EXCEPT !.dhs = IF present THEN [a \in {"gex256"} |-> g] ELSE EmptyMap]>> :
         w \in {768, 2048, 3072}, lg \in BOOLEAN, present \in BOOLEAN, g \in Sizes}
     \cup \* banner and compression
-    {<<[NoPolicy EXCEPT !.has = h, !.banner = "B", !.comp = <<"none">>], [NoPeer EXCEPT !.banner = b, !.comp = c]>> :
-        h \in SUBSET {"banner", "comp"}, b \in {"B", "C"}, c \in {<<"none">>, <<"zlib">>, <<"none", "zlib">>}}
+    \* (compression lists are matched exactly and in order whatever the subset flag says - it speaks of host keys, key exchanges, ciphers and MACs)
+    {<<[NoPolicy EXCEPT !.has = h, !.banner = "B", !.comp = pc, !.subset = s], [NoPeer EXCEPT !.banner = b, !.comp = c]>> :
+        h \in SUBSET {"banner", "comp"}, b \in {"B", "C"}, pc \in {<<"none">>, <<"none", "zlib">>}, s \in BOOLEAN,
+        c \in {<<"none">>, <<"zlib">>, <<"none", "zlib">>, <<"zlib", "none">>}}
 
 \* Fields in combination (the rule treats fields independently - the code evaluates them one after the other, folding one verdict and
 \* walking each size map in sorted order, so interactions live between fields and between entries of one map): every choice of
